@@ -30,8 +30,13 @@ pub const REC_NAMES: [&str; 7] = [
     "Accept",
     "Accept-Encoding",
 ];
-pub const CUSTOM_NAMES: [&str; 15] = [
+pub const CUSTOM_NAMES: [&str; 33] = [
     "Connection", "Host", "X-Custom", "x", "Content-Lengthh", "User-Agent", "a b", "Accept-Charset", "X-\u{e9}",
+    // field names that mean something to OTHER software (proxies, frameworks): to this crate they are custom entries and
+    // nothing else — they must not change the method, the version, the target, the framing or the body
+    "X-HTTP-Method-Override", "X-HTTP-Method", "X-Method-Override", "X-Forwarded-Proto", "X-Forwarded-For", "Upgrade", "TE", "Trailer",
+    "Content-Encoding", "Content-Range", "Range", "Keep-Alive", "Proxy-Connection", "X-Original-URL", "X-Rewrite-URL", "Authorization",
+    "Cookie", "If-Match",
     // characters whose lower-case (or upper-case) form has a different UTF-8 length: any index computed on a
     // case-folded copy is off in the original
     "\u{212a}", "X-\u{212b}x", "\u{1e9e}-h", "\u{130}", "\u{23a}\u{23e}", "Accept\u{212a}",
@@ -74,7 +79,9 @@ pub const AE_VALUES: [&str; 20] = [
     "gzip, *;q=0.00001",
     "identity;q=1.0000",
 ];
-pub const OTHER_VALUES: [&str; 9] = ["v", "some value", "", "a:b", "\u{e9}", "  spaced  out  ", "close", "Close", "keep-alive"];
+pub const OTHER_VALUES: [&str; 23] = ["v", "some value", "", "a:b", "\u{e9}", "  spaced  out  ", "close", "Close", "keep-alive",
+    // the crate's own vocabulary as VALUES of fields it does not recognise
+    "GET", "PUT", "PATCH", "POST", "HTTP/1.0", "HTTP/1.1", "chunked", "100-continue", "identity;q=0", "0", "7", "/other/target", "text/plain", "h2c"];
 
 pub fn case_pattern(rng: &mut Rng, s: &str) -> String {
     match rng.below(5) {
